@@ -314,6 +314,8 @@ func c13Grid(t *testing.T, tier string, shard, shards int, c *h.Collector) {
 		c13EndToEnd(t, c)
 		c13Replaced(t, c)
 		c13DecisionEdges(t, c)
+		c13DryGroup(t, c)
+		c13ExactThresholds(t, c)
 		c13Large(c)
 		c13ManyPods(c)
 	}
@@ -425,6 +427,98 @@ func c13EndToEnd(t *testing.T, c *h.Collector) {
 				c.Nontrivial(fmt.Sprint("e2e/", pm, podIdx, bind))
 			}
 		}
+	}
+}
+
+// c13ExactThresholds: utilisation exactly on the lower / upper taint threshold (not below it: the slow
+// rate / nothing). Where the documented formula req/cap*100 itself is inexact in float64 the outcome
+// belongs to the known float-equality family (F7); everywhere else the decision must be the exact one.
+func c13ExactThresholds(t *testing.T, c *h.Collector) {
+	for _, nodes := range []int{4, 9, 18} {
+		for _, th := range [][3]int{{10, 40, 70}, {30, 45, 70}, {30, 57, 58}, {5, 15, 70}} {
+			for _, role := range []string{"lower", "upper"} {
+				for _, driver := range []string{"cpu", "mem"} {
+					const cpuNode, memNode = int64(1000), int64(4_000_000_000)
+					capOf := map[string]int64{"cpu": int64(nodes) * cpuNode, "mem": int64(nodes) * memNode}
+					thr := int64(th[0])
+					if role == "upper" {
+						thr = int64(th[1])
+					}
+					if capOf[driver]*thr%100 != 0 {
+						continue
+					}
+					req := map[string]int64{"cpu": 1, "mem": 1}
+					req[driver] = capOf[driver] * thr / 100
+					g := StdGroup("g1")
+					g.Opts.MinNodes, g.Opts.MaxNodes = 0, 20
+					g.ASG.Max, g.ASG.MemBytes = 20, memNode
+					g.Opts.TaintLowerCapacityThresholdPercent, g.Opts.TaintUpperCapacityThresholdPercent, g.Opts.ScaleUpThresholdPercent = th[0], th[1], th[2]
+					s := &h.Scenario{Name: "c13.exact-thresholds", Groups: []h.GroupSpec{g}, Slots: 1, Quantum: Q,
+						Init: func(hh *h.Hist) {
+							a := InitASGs(hh)[0]
+							for k := 0; k < nodes; k++ {
+								hh.W.AddNode(a, sim.NodeOpt{Age: time.Duration(10+k) * Q})
+							}
+							o := podOn(g, hh.W.Nodes[0].Name, req["cpu"])
+							o.MemBytes = req["mem"]
+							hh.W.AddPod(o)
+						}}
+					hh := RunCase(t, s)
+					c.R.Evaluations++
+					c.R.Scans += hh.Scans
+					taints := 0
+					for _, e := range hh.W.J {
+						if e.Op == sim.OpK8sUpdate && e.Err == "" && h.TaintAdded(e) {
+							taints++
+						}
+					}
+					want := 0
+					if role == "lower" {
+						want = g.Opts.SlowNodeRemovalRate
+					}
+					c.Nontrivial(fmt.Sprint("exact/", nodes, th, role, driver))
+					if taints == want {
+						continue
+					}
+					sig := "C13/decision-not-driven-by-exact-larger-percentage"
+					if f := float64(req[driver]) / float64(capOf[driver]) * 100; f != float64(thr) {
+						sig = "C13/decision-at-exact-threshold/float-equality/" + role
+					}
+					c.Report(h.Found{Violation: h.Violation{Prop: "C13", Sig: sig,
+						Msg: fmt.Sprintf("%s requests %d of %d = exactly the %s threshold %d %% on %d nodes: %d taints, the utilisation as defined gives %d", driver, req[driver], capOf[driver], role, thr, nodes, taints, want)},
+						Scenario: "c13.exact-thresholds", Case: map[string]any{"nodes": nodes, "thresholds": th, "role": role, "driver": driver}, Trace: append([]string(nil), hh.Trace...)})
+				}
+			}
+		}
+	}
+}
+
+// c13DryGroup: a group in dry mode by its own option only (the controller flag is off): a node it
+// "tainted" in an earlier scan (recorded in its tracker) no longer counts as capacity.
+func c13DryGroup(t *testing.T, c *h.Collector) {
+	for _, global := range []bool{false, true} {
+		g := StdGroup("g1")
+		g.Opts.MinNodes, g.Opts.MaxNodes = 0, 10
+		g.Opts.DryMode = !global
+		s := &h.Scenario{Name: "c13.dry-group", Groups: []h.GroupSpec{g}, DryGlobal: global, Slots: 2, Quantum: Q,
+			Init: func(hh *h.Hist) {
+				a := InitASGs(hh)[0]
+				for k := 0; k < 4; k++ {
+					hh.W.AddNode(a, sim.NodeOpt{Age: time.Duration(10+k) * Q})
+				}
+				hh.W.AddPod(podOn(g, hh.W.Nodes[3].Name, 1500)) // 37.5 %: one node is dry-tainted in scan 1
+			}}
+		hh := RunCase(t, s)
+		c.R.Evaluations++
+		c.R.Scans += hh.Scans
+		gotCap := gaugeValue(metrics.NodeGroupCPUCapacity.WithLabelValues("g1"))
+		gotPct := gaugeValue(metrics.NodeGroupsCPUPercent.WithLabelValues("g1"))
+		if gotCap != 3000 || !closeTo(gotPct, 1500, 3000) {
+			c.Report(h.Found{Violation: h.Violation{Prop: "C13", Sig: "C13/e2e-capacity-dry-group",
+				Msg: fmt.Sprintf("dry mode (global flag %v): after one of four 1000m nodes was dry-tainted the group reports %v m of capacity and %v %% (untainted capacity is 3000 m, 50 %%)", global, gotCap, gotPct)},
+				Scenario: "c13.dry-group", Case: map[string]any{"global_flag": global}, Trace: append([]string(nil), hh.Trace...)})
+		}
+		c.Nontrivial(fmt.Sprint("dry-group/", global))
 	}
 }
 
